@@ -1,5 +1,5 @@
 (* C12 — the exact-rational abstraction of the weight: floor/ceiling and the exact mean (counting argument). *)
-From Coq Require Import List ZArith NArith Bool Lia Morphisms.
+From Coq Require Import List ZArith NArith QArith Bool Lia Morphisms.
 From MV Require Import C12.Model C12.Spec.
 Import ListNotations.
 Local Open Scope N_scope.
@@ -8,6 +8,12 @@ Lemma sum_below_succ : forall f n, sum_below f (N.succ n) = sum_below f n + f n.
 Proof.
   intros f n. unfold sum_below. rewrite N.recursion_succ; [reflexivity|reflexivity|].
   intros x y Hxy a b Hab. subst. reflexivity.
+Qed.
+
+Lemma sum_below_ext : forall f g, (forall k, f k = g k) -> forall n, sum_below f n = sum_below g n.
+Proof.
+  intros f g E n. induction n as [|n IH] using N.peano_ind; [reflexivity|].
+  rewrite !sum_below_succ, IH, E. reflexivity.
 Qed.
 
 (* counting: a function that is [a] below a threshold and [b] from it on *)
@@ -96,4 +102,33 @@ Proof.
   intros n k Hk. destruct (weight_floor_or_ceiling (n * two52) k Hk) as [[E _]|[_ [L _]]].
   - rewrite E. unfold w_floor. apply N.div_mul. discriminate.
   - unfold w_floor in L. rewrite N.div_mul in L by discriminate. lia.
+Qed.
+
+(* ---------------------------------------------------------------- how many of the 2^24 draws emit *)
+(* With the code's `draw <= rate` the number of emitting draws is floor(rate * 2^24) + 1 (capped at 2^24): the
+   emission probability is (floor(rate * 2^24) + 1) / 2^24, which exceeds the rate by at most 2^-24 - negligible for
+   rates well above 2^-24, but for rates at or below 2^-24 at least one draw in 2^24 (k = 0) always emits. *)
+Theorem emitting_draws : forall num den, 0 < den ->
+  sum_below (fun k => if emits_k num den k then 1 else 0) (2 ^ 24) = N.min (2 ^ 24) (num * 2 ^ 24 / den + 1).
+Proof.
+  intros num den Hd.
+  assert (E : forall k, (if emits_k num den k then 1 else 0) = (if k <? num * 2 ^ 24 / den + 1 then 1 else 0)).
+  { intros k. unfold emits_k. set (M := num * 2 ^ 24).
+    pose proof (N.div_mod M den ltac:(lia)) as DM. pose proof (N.mod_lt M den ltac:(lia)) as ML.
+    remember (M / den) as q. remember (M mod den) as r. clear Heqq Heqr.
+    destruct (k * den <=? M) eqn:A; destruct (k <? q + 1) eqn:B; try reflexivity; exfalso.
+    - apply N.leb_le in A. apply N.ltb_ge in B. nia.
+    - apply N.leb_gt in A. apply N.ltb_lt in B. nia. }
+  rewrite (sum_below_ext _ _ E). rewrite sum_below_threshold. lia.
+Qed.
+
+(* [emits_k] is the specification's decision for a rate num/den, on the 24-bit part of the generator's u32 *)
+Lemma spec_emit_is_emits_k : forall (num : N) (den : positive) (u : N),
+  spec_emit (Qmake (Z.of_N num) den) u = emits_k num (Npos den) (N.shiftr (u mod 2 ^ 32) 8).
+Proof.
+  intros num den u. unfold spec_emit, emits_k, draw32_q, QArith_base.Qle_bool. cbn [QArith_base.Qnum QArith_base.Qden].
+  set (k := N.shiftr (u mod 2 ^ 32) 8).
+  destruct (k * N.pos den <=? num * 2 ^ 24) eqn:E.
+  - apply N.leb_le in E. apply Z.leb_le. apply N2Z.inj_le in E. rewrite !N2Z.inj_mul in E. exact E.
+  - apply N.leb_gt in E. apply Z.leb_gt. apply N2Z.inj_lt in E. rewrite !N2Z.inj_mul in E. exact E.
 Qed.
